@@ -3985,8 +3985,16 @@ class RemoteRepository(_mod_repository.Repository, _RpcHelper, lock._RelockDebug
         )
         if response_tuple[0] != b"ok":
             raise transport_errors.UnexpectedSmartServerResponse(response_tuple)
+        # The verb reports the format number of the repository's *inventory*
+        # serializer (e.g. "6" or "7" for the rich-root / subtree knit and
+        # pack formats), which is not always a key of the revision serializer
+        # registry.  The texts sent are in the revision serialization of the
+        # repository format, which this object already knows.
         serializer_format = response_tuple[1].decode("ascii")
-        serializer = serializer_format_registry.get(serializer_format)
+        try:
+            serializer = serializer_format_registry.get(serializer_format)
+        except KeyError:
+            serializer = self._revision_serializer
         byte_stream = response_handler.read_streamed_body()
         decompressor = zlib.decompressobj()
         chunks = []
@@ -6346,6 +6354,12 @@ error_translators.register(
 error_translators.register(
     b"TokenMismatch",
     lambda err, find, get_path: errors.TokenMismatch(find("token"), "(remote token)"),
+)
+error_translators.register(
+    b"AppendRevisionsOnlyViolation",
+    lambda err, find, get_path: errors.AppendRevisionsOnlyViolation(
+        find("branch").user_url
+    ),
 )
 error_translators.register(
     b"Diverged",
